@@ -25,6 +25,7 @@ RULE = (
     "callable, truth vector, body script)."
     ' Nested pairs: a public method that breaks the invariant temporarily and calls public members of the same obje'
     'ct (also through super()) gives the same trace and outcome as def and as async def.'
+    ' Re-entrant function pairs: contracts which use the function they describe after the body made other checked calls (fixed point, factorial, mutual recursion, a method), driven by hand and inside a task; the nested pairs run inside a task as well.'
 )
 ASSUMPTIONS = ["async callables are driven by a deterministic trampoline; concurrency is C12's business"]
 
